@@ -8,6 +8,7 @@ package absnfs
 
 import (
 	"fmt"
+	"runtime"
 	"sync/atomic"
 	"time"
 )
@@ -186,8 +187,82 @@ func (n *AbsfsNFS) UpdateTuningOptions(fn func(*TuningOptions)) {
 		updated.Timeouts = &tCopy
 	}
 	fn(&updated)
+	applyTuningDefaults(&updated)
 	n.tuning.Store(&updated)
 	n.applyTuningSideEffects(old, &updated)
+}
+
+// applyTuningDefaults replaces zero or negative sizes and durations, and a
+// nil Timeouts, with the defaults New applies at construction, so that a
+// runtime update can never leave the server with a zero transfer size or
+// zero timeouts.
+func applyTuningDefaults(t *TuningOptions) {
+	if t.TransferSize <= 0 {
+		t.TransferSize = 65536
+	}
+	if t.AttrCacheTimeout <= 0 {
+		t.AttrCacheTimeout = 5 * time.Second
+	}
+	if t.AttrCacheSize <= 0 {
+		t.AttrCacheSize = 10000
+	}
+	if t.NegativeCacheTimeout <= 0 {
+		t.NegativeCacheTimeout = 5 * time.Second
+	}
+	if t.DirCacheTimeout <= 0 {
+		t.DirCacheTimeout = 10 * time.Second
+	}
+	if t.DirCacheMaxEntries <= 0 {
+		t.DirCacheMaxEntries = 1000
+	}
+	if t.DirCacheMaxDirSize <= 0 {
+		t.DirCacheMaxDirSize = 10000
+	}
+	if t.MaxWorkers <= 0 {
+		t.MaxWorkers = runtime.NumCPU() * 4
+	}
+	if t.MaxConnections <= 0 {
+		t.MaxConnections = 100
+	}
+	if t.IdleTimeout <= 0 {
+		t.IdleTimeout = 5 * time.Minute
+	}
+	if t.SendBufferSize <= 0 {
+		t.SendBufferSize = 262144
+	}
+	if t.ReceiveBufferSize <= 0 {
+		t.ReceiveBufferSize = 262144
+	}
+	if t.Timeouts == nil {
+		t.Timeouts = &TimeoutConfig{}
+	}
+	if t.Timeouts.ReadTimeout <= 0 {
+		t.Timeouts.ReadTimeout = 30 * time.Second
+	}
+	if t.Timeouts.WriteTimeout <= 0 {
+		t.Timeouts.WriteTimeout = 60 * time.Second
+	}
+	if t.Timeouts.LookupTimeout <= 0 {
+		t.Timeouts.LookupTimeout = 10 * time.Second
+	}
+	if t.Timeouts.ReaddirTimeout <= 0 {
+		t.Timeouts.ReaddirTimeout = 30 * time.Second
+	}
+	if t.Timeouts.CreateTimeout <= 0 {
+		t.Timeouts.CreateTimeout = 15 * time.Second
+	}
+	if t.Timeouts.RemoveTimeout <= 0 {
+		t.Timeouts.RemoveTimeout = 15 * time.Second
+	}
+	if t.Timeouts.RenameTimeout <= 0 {
+		t.Timeouts.RenameTimeout = 20 * time.Second
+	}
+	if t.Timeouts.HandleTimeout <= 0 {
+		t.Timeouts.HandleTimeout = 5 * time.Second
+	}
+	if t.Timeouts.DefaultTimeout <= 0 {
+		t.Timeouts.DefaultTimeout = 30 * time.Second
+	}
 }
 
 // UpdatePolicyOptions swaps policy using drain-and-swap.
